@@ -620,6 +620,75 @@ pub fn c02_c14(tier: Tier, which: &'static str) -> i32 {
     }
     if which == "C02" {
         c02_prune_safety(&rep, tier, &scratch);
+        // names that are pattern-like, hidden-like or non-ASCII
+        let odd_worlds = fsworld::worlds(tier.pick(2, 3), &["*", "é", "[a]"], 2);
+        let odd_globs = ["\\*", "[*]", "é", "?", "*", "\\[a\\]", "[\\[]a[\\]]", "**/é", "(?i)É", "**/\\*", "*/\\*", "{é,\\*}/*", "[!*]", "<[é*]:1,2>", "**"];
+        rep.add("odd_name_worlds", odd_worlds.len() as u64);
+        odd_worlds.par_iter().for_each(|world| {
+            let mut c = Counters::new();
+            let place = fswalk::place(&scratch, world);
+            for g in odd_globs {
+                if Glob::new(g).is_err() {
+                    continue;
+                }
+                for link in [LinkBehavior::ReadFile, LinkBehavior::ReadTarget] {
+                    if let Some(Ok(o)) = run_plain_walk(&place, world, g, Variant::Plain, Spelling::Abs, link) {
+                        bump(&mut c, "walks", 1);
+                        bump(&mut c, "odd_name_walks", 1);
+                        let prefix_missing = o.yielded.is_empty() && o.expected.is_empty();
+                        if o.yielded != o.expected || (o.base_yielded && !o.base_allowed) || (o.errors > 0 && !prefix_missing) {
+                            rep.alarm(Alarm {
+                                class: None,
+                                key: format!("odd {} {}", world.describe(), g),
+                                msg: format!("walk of `{}` in {}: yielded {:?}, expected {:?} (errors {})", g, world.describe(), o.yielded, o.expected, o.errors),
+                                case: case_json(world, g, Variant::Plain, Spelling::Abs, link, g),
+                            });
+                        }
+                    }
+                }
+            }
+            drop(place);
+            rep.merge(&c);
+        });
+    }
+    if which == "C14" {
+        // entries of walks with depth and link behaviours over link worlds
+        use crate::props_links::{link_worlds, DepthSpec, C15_GLOBS};
+        use wax::walk::WalkBehavior;
+        let lworlds = link_worlds(tier);
+        let specs = [DepthSpec::Unbounded, DepthSpec::Bounded(Some(1), Some(2)), DepthSpec::Max(2), DepthSpec::FromMinOrUnbounded(2), DepthSpec::Bounded(Some(2), None)];
+        rep.add("link_worlds", lworlds.len() as u64);
+        lworlds.par_iter().for_each(|world| {
+            let mut c = Counters::new();
+            let place = fswalk::place(&scratch, world);
+            for g in C15_GLOBS {
+                let Ok(glob) = Glob::new(g) else { continue };
+                for link in [LinkBehavior::ReadFile, LinkBehavior::ReadTarget] {
+                    for spec in &specs {
+                        let Some((depth, _, _)) = spec.resolve(&glob) else { continue };
+                        let base = place.abs.clone();
+                        let Some(got) = fswalk::collect_glob(glob.walk_with_behavior(base.clone(), WalkBehavior { depth, link }), 2000) else { continue };
+                        bump(&mut c, "walks", 1);
+                        for it in &got {
+                            if let Got::Ok(e) = it {
+                                bump(&mut c, "entries_checked", 1);
+                                let bad = entry_equations(e, &glob, &base, false);
+                                if !bad.is_empty() {
+                                    rep.alarm(Alarm {
+                                        class: None,
+                                        key: format!("behav {} {} {} {:?} {:?}", world.describe(), g, link_name(link), spec, e.rel),
+                                        msg: format!("entry {:?} of `{}` ({}, {}) in {}: {}", e.rel, g, link_name(link), spec.describe(), world.describe(), bad.join("; ")),
+                                        case: json!({"kind": "depthwalk", "world": world_json(world), "glob": g, "link": link_name(link), "depth": {"k": "unbounded"}}),
+                                    });
+                                }
+                            }
+                        }
+                    }
+                }
+            }
+            drop(place);
+            rep.merge(&c);
+        });
     }
     let distinct = distinct_outcomes.lock().unwrap().len() as u64;
     let walks = rep.get("walks");
